@@ -8,7 +8,7 @@
 
   Hypotheses (`Hyp d` and `Named d`): `WF d`, `IdsUnique d` (instance / cable identifiers are netlist-wide object
   identities), `Unique d` (the netlist is uniquified), `Acyclic d`, `Named d` (instances and cables have
-  non-empty names without '/'); all decidable and evaluated by the driver / harness on every input,
+  non-empty names; '/' is allowed); all decidable and evaluated by the driver / harness on every input,
   except `Acyclic` and `Unique`, which the harness checks on the live netlist.
   `(flatten fuel d).finished`: the work list ran empty; `flatten_finishes`: it does whenever
   fuel > number of instances (the harness passes number of instances + 5 and checks the flag).
@@ -16,8 +16,27 @@
 import Spydr.Xform.LemmasFlatWF
 import Spydr.Xform.LemmasFlatFuel
 import Spydr.Xform.LemmasFlatPath
+import Spydr.Xform.LemmasFlatLeft
 
 namespace Spydr.Xform
+
+/-!
+  Domain statement (what the model does not have: exceptions).  The implementation refuses a duplicate
+  sibling name / identifier (`add_child`, `add_cable`, `__setitem__` raise `ValueError`); the model
+  always appends.  The theorems therefore describe the implementation on inputs where
+    (a) the slash-joined path names of all instance occurrences (leaf AND hierarchical: shells are
+        parked in the top definition until the end) and of all cables are pairwise distinct — true
+        whenever no name contains '/'; when two LEAF occurrences (or two cables) share a joined name
+        the property itself is unsatisfiable; when only a shell is involved the implementation fails
+        although the property is satisfiable: open finding `flatten.shell_name_collision.raises_value`;
+    (b) under the EDIF naming policy, no renewed identifier `instance_sdn_flat_N` / `cable_sdn_flat_N`
+        clashes case-insensitively with an existing one: open finding
+        `flatten.identifier_clash.raises_value`.
+  The harness evaluates both conditions on every input and classifies a refusal accordingly.
+  "Same data" in `LeavesOf` is the data dictionary WITHOUT the naming keys: `.NAME` becomes the path
+  name and `EDIF.identifier` (if present) is renewed to `instance_sdn_flat_N` by design
+  (`LeavesOf` leaves `eid` unconstrained; the correspondence compares it exactly).
+-/
 
 /-- Fuel: one more iteration than the netlist has instances empties the work list
     (`allInsts d` = the children of all definitions; the harness passes that number + 5). -/
@@ -81,6 +100,21 @@ theorem flatten_wf (fuel : Nat) (d : Design) (hyp : Hyp d) (hnamed : Named d) (h
   obtain ⟨moved, invA, invB⟩ := fLoop_invAB hyp hnamed fuel (fInit d) [] (FInvA.init hyp) (FInvB.init hyp)
   have hq : (fLoop fuel (fInit d)).queue = [] := by simpa [flatten] using hfin
   exact wf_final hyp invA invB hq
+
+/-- Nothing else is left behind: every definition that was instantiated below the top instance and
+    was not a leaf ends up without children and without cables; the only trace is at most one stale
+    member of its reference set (`extra`: the dissolved shell, which `Definition.remove_child` does
+    not un-reference — an instance outside every definition, exactly like the clones `Instance.clone`
+    documents; `canon.wf_problems` accepts it, so it is recorded as an observation, not as a
+    well-formedness violation).  `flatten_wf` itself does not constrain `extra`. -/
+theorem flatten_leftovers (fuel : Nat) (d : Design) (hyp : Hyp d) (hnamed : Named d)
+    (hfin : (flatten fuel d).finished = true) (x : Nat) (hx : Reach d x) (hxt : x ≠ d.top)
+    (hxl : (d.defs x).isLeaf = false) :
+    ((flatten fuel d).design.defs x).children = [] ∧ ((flatten fuel d).design.defs x).cables = [] ∧
+    (flatten fuel d).design.extra x ≤ 1 := by
+  obtain ⟨moved, invA, _⟩ := fLoop_invAB hyp hnamed fuel (fInit d) [] (FInvA.init hyp) (FInvB.init hyp)
+  have hq : (fLoop fuel (fInit d)).queue = [] := by simpa [flatten] using hfin
+  exact leftovers hyp invA hq hx hxt hxl
 
 /-! ### Non-vacuity: a concrete two-level design with a feed-through satisfies the hypotheses and the
     model really dissolves it. -/
